@@ -62,6 +62,8 @@ m("C04", "operators/group_by.py", "                elif type(i) is rs.OnComplete
 m("C04", "operators/group_by.py", "                    key = i.key\n                    map_key = key_mapper(i.item)\n\n                    index = i.store.get_map(state, key, map_key)", "                    map_key = key_mapper(i.item)\n                    key = i.key\n\n                    index = i.store.get_map(state, i.key, map_key)", "silent")
 # ---------------------------------------------------------------- C05
 m("C05", "data/roll.py", "count = n - w_value + 1", "count = n - w_value", "fire", ["DP-2"])
+m("C05", "data/roll.py", "                    for offset in range(density):\n                        index = i.key[0] * density + offset\n                        w_value = i.store.get_state(state_w, (index, i.key))", "                    for offset in range(1, density):\n                        index = i.key[0] * density + offset\n                        w_value = i.store.get_state(state_w, (index, i.key))", "fire", ["DP-0"], "windows living in slot 0 miss items")
+m("C05", "data/roll.py", "                        if w_value != -1:\n                            observer.on_next(i._replace(key=(index, i.key)))                            \n", "                        if w_value > -1:\n                            observer.on_next(i._replace(key=(index, i.key)))\n", "silent")
 m("C05", "data/roll.py", "if (n % stride) == 0:", "if (n % stride) == 1:", "fire", ["DP-2", "LV"])
 m("C05", "data/roll.py", "                    n_value = i.store.get_state(state_n, i.key)\n                    i.store.set_state(state_n, i.key, n_value+1)", "                    n_value = i.store.get_state(state_n, i.key)\n                    i.store.set_state(state_n, i.key, n_value+2)", "fire", ["DP-1"])
 m("C05", "data/roll.py", "                        index = i.key[0] * density + (first + offset) % density\n                        if i.store.get_state(state_w, (index, i.key)) != -1:\n                            observer.on_next(i._replace(key=(index, i.key)))\n                            i.store.set_state(state_w, (index, i.key), -1)\n                    outer_observer.on_next(i)\n                elif isinstance(i, rs.OnErrorMux):", "                        index = i.key[0] * density + offset\n                        if i.store.get_state(state_w, (index, i.key)) != -1:\n                            observer.on_next(i._replace(key=(index, i.key)))\n                            i.store.set_state(state_w, (index, i.key), -1)\n                    outer_observer.on_next(i)\n                elif isinstance(i, rs.OnErrorMux):", "fire", ["DP-3"], "the repaired defect")
@@ -255,6 +257,41 @@ def _run_seed(args):
     return dict(id="seed-" + sid, status=status, fired=sorted(set(fired)), error=err, expect="fire", note="independently seeded change " + sid, rel=",".join(files))
 
 
+def _run_refactor(args):
+    """A behaviour-preserving refactoring written by an independent maintainer (refactors/<id>/patch.diff, tests and an
+    equivalence sweep passed): no rule of the property may report anything on it."""
+    ref_dir, prop, repo = args
+    from . import props
+    from .engine import Ctx
+    rid = os.path.basename(ref_dir.rstrip("/"))
+    try:
+        with open(os.path.join(ref_dir, "patch.diff")) as f:
+            patch = f.read()
+        base = Program(repo)
+        files = apply_unified_diff(patch, lambda rel: base.by_relpath[rel].src if rel in base.by_relpath else None)
+        if not files:
+            return dict(id="refactor-" + rid, status="skipped", detail="patch does not apply to the current tree", expect="silent", note="refactoring " + rid)
+        prog = base
+        for rel, src in files.items():
+            prog = prog.overlay(rel, src)
+    except SyntaxError as e:
+        return dict(id="refactor-" + rid, status="skipped", detail="variant does not parse: %s" % e, expect="silent", note="refactoring " + rid)
+    fired, err = [], None
+    try:
+        ctx = Ctx(program=prog, tier="quick")
+        for rule in props.rules_for(prop):
+            res = rule(ctx)
+            for r in (res if isinstance(res, list) else [res]):
+                fired += ["%s %s" % (f.rule, f.construct) for f in r.findings]
+    except AnalysisError as e:
+        err = str(e)
+    except Exception as e:
+        err = "internal error: %r" % (e,)
+    status = "ok" if (not fired and err is None) else ("cannot-analyse" if (err and not fired) else "FALSE-ALARM")
+    return dict(id="refactor-" + rid, status=status, fired=sorted(set(fired))[:5], error=err, expect="silent",
+                note="independent behaviour-preserving refactoring " + rid, rel=",".join(files))
+
+
 def _run_one(args):
     entry, repo = args
     from . import props
@@ -303,10 +340,16 @@ def run_selftest(prop, repo=None, jobs=None):
         for d in sorted(os.listdir(seeded_root)):
             if d.startswith(prop) and os.path.isfile(os.path.join(seeded_root, d, "patch.diff")):
                 seeds.append((os.path.join(seeded_root, d), prop, repo))
-    jobs = min(16, len(entries) + len(seeds), os.cpu_count() or 1)
+    ref_root = os.path.join(os.path.dirname(os.path.dirname(os.path.abspath(__file__))), "refactors")
+    refs = []
+    if os.path.isdir(ref_root):
+        for d in sorted(os.listdir(ref_root)):
+            if os.path.isfile(os.path.join(ref_root, d, "patch.diff")):
+                refs.append((os.path.join(ref_root, d), prop, repo))
+    jobs = min(16, len(entries) + len(seeds) + len(refs), os.cpu_count() or 1)
     with ProcessPoolExecutor(max_workers=jobs) as ex:
-        results = list(ex.map(_run_one, [(e, repo) for e in entries])) + list(ex.map(_run_seed, seeds))
+        results = list(ex.map(_run_one, [(e, repo) for e in entries])) + list(ex.map(_run_seed, seeds)) + list(ex.map(_run_refactor, refs))
     summary = {}
     for r in results:
         summary[r["status"]] = summary.get(r["status"], 0) + 1
-    return dict(variants=len(entries) + len(seeds), summary=summary, results=results)
+    return dict(variants=len(entries) + len(seeds) + len(refs), summary=summary, results=results)
